@@ -3,13 +3,15 @@
      blocks  = (counter == 0 ? 255 : counter - 1)   blocks generated so far,   valid: posn <= 32, (blocks == 0 ==> posn == 32)
      served  = 32 * blocks - (32 - posn)
    Contract: result == -1 iff served + outlen > 8160; served' == min(served + outlen, 8160); every output byte at OKM
-   position >= 8160 is zero; one HMAC per new block, carrying the 8-bit block number; exactly outlen bytes written. */
+   position >= 8160 is zero; one HMAC per new block; exactly outlen bytes written; and the per-block PROTOCOL for every
+   block number and every infolen: HMAC keyed with PRK over T(n-1) (n > 1) || info || n, result stored as T(n). */
 #include "tjv.h"
 #include "TinyJAMBU.h"
 typedef struct { unsigned char prk[32]; unsigned char out[32]; unsigned char counter; unsigned char posn; } hkdf_view_t;
 typedef struct { hkdf_view_t p; unsigned char tail[72 - sizeof(hkdf_view_t)]; } hkdf_obj_t;
 extern unsigned long tjv_hm_inits, tjv_hm_finals;
 extern uint8_t tjv_hm_last1;
+extern const unsigned char *tjv_hkdf_prk, *tjv_hkdf_T, *tjv_hkdf_info, *tjv_hkdf_counter; extern size_t tjv_hkdf_infolen;
 size_t tjv_g;                         /* ghost output index */
 unsigned long tjv_inits0;
 unsigned char *tjv_out0;
@@ -33,6 +35,7 @@ void harness(void)
   unsigned char *out = malloc(outlen); __CPROVER_assume(out);
   tjv_out0 = out;
   unsigned char *info_obj = malloc(infolen); __CPROVER_assume(info_obj);
+  tjv_hkdf_prk = v->prk; tjv_hkdf_T = v->out; tjv_hkdf_counter = &v->counter; tjv_hkdf_info = info_obj; tjv_hkdf_infolen = infolen;
   size_t served0 = served_of(v);
   tjv_g = nondet_size(); __CPROVER_assume(tjv_g < outlen || outlen == 0);
   tjv_hm_inits = 0; tjv_hm_finals = 0; tjv_inits0 = 0;
